@@ -5,7 +5,8 @@ from props import hc_common as H
 from gen_hc import Sim, Net, pick_cfg, random_traffic, pick_len, F
 
 PROP = "C12"
-LAKE_TARGETS = ["Uflow.Props.C12", "uflow_driver"]
+LAKE_TARGETS = ["Uflow.Props.C12", "Uflow.Props.C12Ts", "uflow_driver"]
+PROPS_FILES = ["C12", "C12Ts"]
 TRUSTED_BASE = [
     "Lean 4.33 kernel; axioms per theorem under coverage.axioms",
     "tools/extract_consts.py (MAX_SEND_COUNT, MAX_FRAGMENT_SIZE)",
@@ -52,7 +53,29 @@ def streams(rng, tier, ctx):
             cases.append((cid, sim.ops)); meta[cid] = sim
     finally:
         it.close()
-    return [{"name": "modes", "mode": "hc", "cases": cases, "meta": meta, "case_timeout": 120}]
+    out = [{"name": "modes", "mode": "hc", "cases": cases, "meta": meta, "case_timeout": 120}]
+    # known finding F22 (theorem C12_ts_drop_wrap_reachable_witness): the flush id is a wrapping u32 and staleness is tested with
+    # `!=`, so a TimeSensitive packet that is still queued exactly 2^32 step() calls after it was submitted counts as fresh again.
+    # The history below is run on the real code in every run (2^32 step() calls at one instant: about 45 s); implementation only -
+    # the model side of it is the theorem, the executable model would need hours for the same loop.
+    class Null:
+        def op(self, line, timeout=None): return "ok"
+    from checkflow import SplitMix
+    cfg = dict(pick_cfg(SplitMix(22)), bwA=2_000_000, bwB=2_000_000, allocA=1_000_000, allocB=1_000_000, fw=4096, pw=4096)
+    sim = Sim(SplitMix(22), cfg, inter=Null())
+    sim.tick += 1; sim.set_time(1_000_000)
+    sim.send("A", 0, 1, 1400)                 # uses up the initial credit (Unreliable: never re-sent)
+    sim.op("A flush"); sim.op("A step")
+    sim.tick += 1; sim.set_time(1_000_000)    # a new tick of the oracle's clock, the same instant of the endpoint's
+    sim.send("A", 1, 0, 100)                  # TimeSensitive, queued with the current flush id; no credit: not sent in this flush
+    sim.op("A flush"); sim.op("A step")       # the next step(): the packet is stale from now on
+    sim.op("A stepn %d" % (2**32 - 2))
+    sim.tick += 1; sim.set_time(2_001_000_000)
+    sim.op("A step")                          # credit is back, and the flush id is the packet's again
+    sim.op("A flush"); sim.op("A probe")
+    sim.meta = {"cfg": cfg}
+    out.append({"name": "flush_id_wrap", "mode": "hc", "cases": [("w0", sim.ops)], "meta": {"w0": sim}, "case_timeout": 400, "impl_only": True})
+    return out
 
 def signature(ops, outs):
     nf = sum(o.count(":D,") for op, o in zip(ops, outs) if op.endswith(" flush"))
@@ -66,7 +89,7 @@ def oracle(stream, cid, ops, outs):
     fails = H.trap_failures(ops, outs)
     sim = stream["meta"][cid]
     pk = sim.sent["A"]
-    tick = 0; send_tick = {}; nsend = 0
+    tick = 0; send_tick = {}; nsend = 0; nsteps = 0; steps_at_send = {}
     seq_idx = {}          # wire sequence id -> packet idx (identified at fragment 0: channel, fragment count, length and fnv of fragment 0, monotone)
     last_idx = -1
     count = {}            # (packet idx, frag) -> transmissions
@@ -82,7 +105,11 @@ def oracle(stream, cid, ops, outs):
         if t[0] == "t":
             tick += 1
         elif t[0] == "A" and t[1] == "send" and o == "ok":
-            send_tick[nsend] = tick; nsend += 1
+            send_tick[nsend] = tick; steps_at_send[nsend] = nsteps; nsend += 1
+        elif t[0] == "A" and t[1] == "step" and o == "ok":
+            nsteps += 1
+        elif t[0] == "A" and t[1] == "stepn" and o == "ok":
+            nsteps += int(t[2])
         elif t[0] == "A" and t[1] == "flush" and o and o[0].isdigit():
             for f in gen_hc.parse_frames(o):
                 if f["kind"] != "D":
@@ -124,8 +151,11 @@ def oracle(stream, cid, ops, outs):
                                       (k, "TimeSensitive" if p.mode == 0 else "Unreliable", j, count[(j, k)]), "signature": {"oracle": "at_most_once", "mode": p.mode}})
                         return fails
                     if p.mode == 0 and first_tick[j] > send_tick.get(j, 0):
-                        fails.append({"oracle": "ts_drop", "detail": "TimeSensitive packet #%d submitted at tick %d (before that tick's flush and step) put its first fragment on the wire only at tick %d" %
-                                      (j, send_tick.get(j, 0), first_tick[j]), "signature": {"oracle": "ts_drop"}})
+                        sig = {"oracle": "ts_drop"}
+                        if nsteps - steps_at_send.get(j, 0) >= 2**32:
+                            sig["cause"] = "flush_id_wrapped_after_2^32_steps"
+                        fails.append({"oracle": "ts_drop", "detail": "TimeSensitive packet #%d submitted at tick %d (before that tick's flush and step) put its first fragment on the wire only at tick %d, %d step() calls later" %
+                                      (j, send_tick.get(j, 0), first_tick[j], nsteps - steps_at_send.get(j, 0)), "signature": sig})
                         return fails
         elif t[0] == "B" and t[1] == "flush" and o and o[0].isdigit():
             bframes.extend(gen_hc.parse_frames(o))
